@@ -668,6 +668,62 @@ theorem transient_only_serves_nothing (cfg : TtlConfig) (ops : List Op)
       exact ih (fun o ho => h o (List.mem_cons_of_mem _ ho)) s
   rw [this]; rfl
 
+/-! #### which responses can reach the cache as a cacheable result -/
+
+/-- SERVFAIL, REFUSED and every other error response code become `DnsError::ResponseCode`, never the
+cacheable `NoRecordsFound` and never a positive message … -/
+theorem error_rcode_not_cacheable (r : Resp) (h : r.rcode ∈ errCodes) :
+    fromResponse r = .rcodeErr r.rcode := by
+  unfold fromResponse
+  have : errCodes.contains r.rcode = true := by simpa using h
+  rw [if_pos this]
+
+/-- … and such an error is ignored by `insert`, whatever the cache holds and however it is configured. -/
+theorem error_response_never_cached (cfg : TtlConfig) (s : State) (q : Query) (t : Nat) (r : Resp)
+    (h : r.rcode ∈ errCodes) :
+    ∃ c, fromResponse r = .rcodeErr c ∧ Cache.insert cfg s q (.other c) t = .ok s :=
+  ⟨r.rcode, error_rcode_not_cacheable r h, rfl⟩
+
+/-- A response becomes the cacheable negative answer exactly when it is NXDOMAIN or NOERROR, holds no
+answer to the query and is not truncated; its negative TTL is then the smaller of the SOA record's
+TTL and the SOA MINIMUM field (RFC 2308 §5), absent without a SOA. -/
+theorem noRecords_iff (r : Resp) (x : Option Nat) :
+    fromResponse r = .noRecords x ↔
+      (r.rcode = 3 ∨ r.rcode = 0) ∧ r.containsAnswer = false ∧ r.truncated = false ∧
+      x = r.soa.map fun p => min p.1 p.2 := by
+  have hmin : r.negativeTtl = r.soa.map fun p => min p.1 p.2 := by
+    unfold Resp.negativeTtl
+    cases r.soa with
+    | none => rfl
+    | some p => simp only [Option.map_some, Option.some.injEq]; split <;> omega
+  unfold fromResponse
+  by_cases he : errCodes.contains r.rcode = true
+  · rw [if_pos he]
+    constructor
+    · intro h; cases h
+    · rintro ⟨h | h, _⟩ <;> (rw [h] at he; exact absurd he (by decide))
+  · rw [if_neg he]
+    by_cases hc : ((r.rcode == 3 || r.rcode == 0) && !r.containsAnswer && !r.truncated) = true
+    · rw [if_pos hc]
+      simp only [Bool.and_eq_true, Bool.or_eq_true, beq_iff_eq, Bool.not_eq_true'] at hc
+      constructor
+      · intro h
+        injection h with h
+        exact ⟨hc.1.1, hc.1.2, hc.2, by rw [← h, hmin]⟩
+      · rintro ⟨_, _, _, rfl⟩; rw [hmin]
+    · rw [if_neg hc]
+      constructor
+      · intro h; cases h
+      · rintro ⟨h1, h2, h3, _⟩
+        exfalso; apply hc
+        simp only [Bool.and_eq_true, Bool.or_eq_true, beq_iff_eq, Bool.not_eq_true']
+        exact ⟨⟨h1, h2⟩, h3⟩
+
+example : fromResponse { rcode := 2, soa := some (3600, 60) } = .rcodeErr 2 := by decide
+example : fromResponse { rcode := 3, soa := some (3600, 60) } = .noRecords (some 60) := by decide
+example : fromResponse { rcode := 0, answersNonEmpty := true } = .ok := by decide
+example : fromResponse { rcode := 3, truncated := true } = .ok := by decide
+
 /-! #### panics -/
 
 /-
